@@ -159,3 +159,31 @@ def prom(a):
     """The mathematical value of integer samples (no wrap-around): promote integer arrays to float64."""
     a = np.asarray(a)
     return a.astype(float) if a.dtype.kind in 'iub' else a
+
+
+def scaled(fam, n=3, factors=(1e-8, 1e6)):
+    """Amplitude variants of the first n records of a family: the estimators must not contain absolute thresholds or
+    epsilons, so very small (1e-8) and large (1e6) records are part of 'all data'."""
+    out = []
+    for name, x in fam[:n]:
+        for f in factors:
+            out.append(('%s*%g' % (name, f), x * f))
+    return out
+
+
+def pcm64(N):
+    """32-bit full-scale samples held in int64 arrays / Python int lists: products of two samples times N exceed 2^63."""
+    n = np.arange(N, dtype=float)
+    a = np.round(2.0e9 * np.cos(2 * np.pi * 0.17 * n + 0.2) + 1.0e9 * weyl(N, 3)).astype(np.int64)
+    return [('pcm32_in_int64', a)]
+
+
+def strided(fam, n=2):
+    """Non-contiguous views (every second element of an interleaved buffer) of the first n records."""
+    out = []
+    for name, x in fam[:n]:
+        buf = np.empty(2 * len(x), dtype=x.dtype)
+        buf[0::2] = x
+        buf[1::2] = -7.0 * x[::-1] + 3.0
+        out.append((name + '[::2]', buf[0::2]))
+    return out
